@@ -278,3 +278,124 @@ Example oms_partition_nonvacuous :
             mkN 2 KAmp [3] []; mkN 3 KOther [1] []; mkN 4 KAmp [5] []; mkN 5 KOther [6] []; mkN 6 KAmp [0] []] in
   chain_wf g [mkL 0 [2; 3] 1; mkL 1 [4; 5; 6] 0].
 Proof. apply Proofs.Oms.chain_wf_b_sound. vm_compute. reflexivity. Qed.
+
+(* ================================================================ extensions *)
+(* ---------------------------------------------------------------- 1. the common range is sorted, from the amplifiers *)
+(* dj: two bands do not overlap (they may touch); pdisj: pairwise, by position.  Every amplifier's own bands
+   pairwise non-overlapping and inside [f_min, f_max], outcome non-empty  =>  the returned common range is sorted,
+   non-overlapping and inside [f_min, f_max] (the hypothesis bitmap_len needs) *)
+Theorem find_common_range_sorted : forall (amps : list (list band)) (si : band) (f_min f_max : Q),
+  amps <> [] ->
+  (forall amp, In amp amps -> pdisj amp) ->
+  (forall amp b, In amp amps -> In b amp -> (f_min <= fst b)%Q /\ (snd b <= f_max)%Q) ->
+  find_common_range amps si <> [] ->
+  sorted_in f_min f_max (find_common_range amps si).
+Proof. exact Proofs.Oms.find_common_range_sorted. Qed.
+Print Assumptions find_common_range_sorted.
+
+Example find_common_range_sorted_nonvacuous :
+  let amps := [[((191000000000000 # 1), (195000000000000 # 1)); ((186000000000000 # 1), (190000000000000 # 1))];
+               [((185000000000000 # 1), (189000000000000 # 1)); ((192000000000000 # 1), (196000000000000 # 1))];
+               [((186000000000000 # 1), (193000000000000 # 1))]] in
+  (forall amp, In amp amps -> pdisj amp) /\
+  find_common_range amps (f_ref, f_ref) =
+    [((186000000000000 # 1), (189000000000000 # 1)); ((192000000000000 # 1), (193000000000000 # 1))].
+Proof.
+  cbv zeta. split; [|vm_compute; reflexivity].
+  intros amp [<-|[<-|[<-|[]]]]; apply Proofs.Oms.pdisj_b_sound; vm_compute; reflexivity.
+Qed.
+
+(* at the level of one OMS of a network: amplifier bands pairwise non-overlapping (amps_ok) and the network range
+   of find_network_freq_range give common_ok; what has to be excluded is exactly what two open findings are about
+   (no common band; amplifier-less OMS whose SI band leaves the network range) *)
+Theorem common_ok_from_bands : forall (g : graph) (si : band) (fmin fmax : Q) (els : list Z),
+  find_network_freq_range g = Ok (fmin, fmax) -> amps_ok g ->
+  elements_common_range g els si <> [] ->
+  (oms_amp_bands g els = [] -> (fmin <= fst si)%Q /\ (fst si <= snd si)%Q /\ (snd si <= fmax)%Q) ->
+  common_ok g si fmin fmax els.
+Proof. exact Proofs.Oms.common_ok_from_bands. Qed.
+Print Assumptions common_ok_from_bands.
+
+(* build_oms_list_ok with hypotheses on the INPUT (amplifier bands), not on the outcome of find_common_range *)
+Theorem build_oms_list_ok_bands : forall (g : graph) (si : band) (d : list line) (fmin fmax : Q),
+  chain_wf g d -> d <> [] -> find_network_freq_range g = Ok (fmin, fmax) -> amps_ok g ->
+  Forall (line_bands_ok g si fmin fmax) d ->
+  exists r rv, build_oms_list g si = Ok r /\
+    map el_ids r = map line_path d /\
+    reversed_oms (map line_path d) = Ok rv /\ map rev_id r = rv /\
+    Forall2 (map_ok g si fmin fmax) d (map smap r).
+Proof. exact Proofs.Oms.build_oms_list_ok_bands. Qed.
+Print Assumptions build_oms_list_ok_bands.
+
+(* ---------------------------------------------------------------- 2. local graph conditions *)
+(* local_wf_b g: distinct uids; every transceiver has successors, all ROADMs (none sits on a line); every line
+   element has exactly one successor, a line element or a ROADM; no line element is the target of two edges; the
+   walk from every ROADM into every non-transceiver successor reaches a ROADM; every line element is met by such a
+   walk.  These imply the line decomposition (chain_wf) with the lines read off the walks *)
+Theorem local_wf_sound : forall g : graph,
+  local_wf_b g = true -> exists d, lines_of g = Ok d /\ chain_wf g d.
+Proof. exact Proofs.Oms.local_wf_sound. Qed.
+Print Assumptions local_wf_sound.
+
+Theorem oms_partition_local : forall g : graph,
+  local_wf_b g = true ->
+  exists d L, lines_of g = Ok d /\ build_oms_els g = Ok L /\ L = map line_path d /\
+    (forall n, In n g -> is_line_node n = true -> count_occ Z.eq_dec (flat_map interior L) (uid n) = 1%nat) /\
+    Forall (fun el => exists a els b, el = a :: els ++ [b] /\
+                      is_kind g KRoadm a = true /\ is_kind g KRoadm b = true /\
+                      Forall (fun u => is_kind g KRoadm u = false /\ is_kind g KTrx u = false) els /\
+                      path g el) L.
+Proof. exact Proofs.Oms.oms_partition_local. Qed.
+Print Assumptions oms_partition_local.
+
+(* the whole build_oms_list from local graph conditions + amplifier bands (net_local_hyps_b: local_wf_b, amps_ok_b, at
+   least one line, some amplifier band, and on every line: a common band exists / the SI band of an amplifier-less
+   line stays inside the network range).  No line decomposition and no property of find_common_range's outcome is
+   assumed.  The check evaluates net_local_hyps_b on every network it explores *)
+Theorem build_oms_list_local : forall (g : graph) (si : band),
+  net_local_hyps_b g si = true ->
+  exists d fmin fmax r rv,
+    lines_of g = Ok d /\ chain_wf g d /\ find_network_freq_range g = Ok (fmin, fmax) /\
+    build_oms_list g si = Ok r /\
+    map el_ids r = map line_path d /\
+    reversed_oms (map line_path d) = Ok rv /\ map rev_id r = rv /\
+    Forall2 (map_ok g si fmin fmax) d (map smap r).
+Proof. exact Proofs.Oms.build_oms_list_local. Qed.
+Print Assumptions build_oms_list_local.
+
+Example build_oms_list_local_nonvacuous :
+  let c := ((191300000000000 # 1), (196100000000000 # 1)) in
+  let l := ((186000000000000 # 1), (190000000000000 # 1)) in
+  let cn := ((192000000000000 # 1), (195000000000000 # 1)) in
+  let g := [mkN 0 KRoadm [10; 2] []; mkN 1 KRoadm [4; 11] []; mkN 10 KTrx [0] []; mkN 11 KTrx [1] [];
+            mkN 2 KAmp [3] [c]; mkN 3 KOther [1] [];
+            mkN 4 KAmp [5] [c; l]; mkN 5 KOther [6] []; mkN 6 KAmp [0] [l; cn]] in
+  net_local_hyps_b g c = true /\ lines_of g = Ok [mkL 0 [2; 3] 1; mkL 1 [4; 5; 6] 0].
+Proof. cbv zeta. split; vm_compute; reflexivity. Qed.
+
+(* an isolated ring of line elements satisfies every other condition: "met from a ROADM" cannot be dropped *)
+Example local_wf_needs_reachability :
+  let g := [mkN 0 KRoadm [2] []; mkN 1 KRoadm [] []; mkN 2 KOther [1] []; mkN 7 KOther [8] []; mkN 8 KOther [7] []] in
+  local_wf_b g = false /\ build_oms_els g = Ok [[0; 2; 1]].
+Proof. cbv zeta. split; vm_compute; reflexivity. Qed.
+
+(* ---------------------------------------------------------------- 3. spacing and remove_duplicates *)
+(* find_common_range_sp: the dictionaries carry their 'spacing' entry (absent / None / value) and remove_duplicates
+   compares them entirely.  With amplifiers whose own bands do not overlap it returns exactly the (f_min, f_max) list
+   of the spacing-free model: no key that remove_duplicates looks at can influence the spectrum map *)
+Theorem spacing_irrelevant : forall (amps : list (list sband)) (si : band),
+  (forall amp, In amp amps -> pdisj (map sb_band amp)) ->
+  find_common_range_sp amps si = find_common_range (map (map sb_band) amps) si.
+Proof. exact Proofs.Oms.spacing_irrelevant. Qed.
+Print Assumptions spacing_irrelevant.
+
+(* the same two amplifiers twice, differing in spacing only: remove_duplicates keeps them, the result is unchanged *)
+Example spacing_irrelevant_nonvacuous :
+  let b1 := ((191000000000000 # 1), (195000000000000 # 1)) in
+  let b2 := ((186000000000000 # 1), (190000000000000 # 1)) in
+  let amps := [[(b1, Some (Some (50000000000 # 1))); (b2, None)]; [(b1, Some (Some (75000000000 # 1))); (b2, Some None)];
+               [(((192000000000000 # 1), (196000000000000 # 1)), None)]] in
+  length (dedupe_sp (map sort_sbands amps) []) = 3%nat /\
+  length (dedupe (map sort_bands (map (map sb_band) amps)) []) = 2%nat /\
+  find_common_range_sp amps (f_ref, f_ref) = [((192000000000000 # 1), (195000000000000 # 1))].
+Proof. cbv zeta. repeat split; vm_compute; reflexivity. Qed.
